@@ -2,8 +2,8 @@ import AlgoVerif.Base.Drv
 import AlgoVerif.Model.AsmFormat
 /-!
 Driver for C33: the model's answer for one op line of harness/data/transactions/logic/zz_verif_c33_test.go
-  prog <v> <tokens…>                 ⇒ asm=<hex>|ERR            (Model.AsmFormat.asm on the lexed tokens)
-  code <origin> <minvS>/<minvA> <hex> ⇒ chk=<S>/<A> [re=… fix=… re2=… dis=…]
+  prog <v> <tokens…>                 ⇒ asm=<hex> ops=<k>/<n> | asm=ERR            (Model.AsmFormat.asm on the lexed tokens)
+  code <origin> <minvS>/<minvA> <hex> ⇒ chk=<S>/<A> [re=… fix=… re2=… vmin=… dis=…]
   src …                               ⇒ -                        (not modelled)
 The lexer (string → `Tok`) and the renderer (`Tok` → string) below are the correspondence-only part of the text form.
 -/
@@ -107,12 +107,32 @@ def handleProg (v : String) (toks : List String) : String :=
   match lexStmts ((splitStmts toks [] []).filter (· ≠ [])) with
   | none => "-"
   | some stmts =>
-    match asm env (nat! v) stmts with
-    | .ok bs => "asm=" ++ hexOf bs
+    match parseProg env (nat! v) stmts with
     | .error .unmodelled => "-"
     | .error _ => "asm=ERR"
+    | .ok is =>
+      match encode env (nat! v) is with
+      | .error .unmodelled => "-"
+      | .error _ => "asm=ERR"
+      | .ok bs =>
+        let k := match decode env bs with
+          | .ok (_, is') => toString is'.length
+          | .error _ => "?"
+        s!"asm={hexOf bs} ops={k}/{is.length}"
 
 def reasm (v : Nat) (stmts : List Stmt) : Except Err Bytes := asm env v stmts
+
+/-- every varint branch immediate is minimal (`-` when the raw walk fails) -/
+def vminOf (bs : Bytes) : String :=
+  match readU bs 10 with
+  | none => "-"
+  | some (v, k) =>
+    match decRaw (env.look v) bs.length (bs.drop k).length (bs.drop k) with
+    | none => "-"
+    | some rs =>
+      if rs.all (fun r => r.imms.all (fun im => match im with
+          | .voff o w => w == needed o
+          | _ => true)) then "ok" else "bad"
 
 def handleCode (minv : String) (hex : String) : String :=
   let bs := hexBytes hex
@@ -129,17 +149,17 @@ def handleCode (minv : String) (hex : String) : String :=
     let d := renderStmts stmts
     match reasm v stmts with
     | .error .unmodelled => "-"
-    | .error _ => s!"{chk} re=ERR fix=- re2=- dis={d}"
+    | .error _ => s!"{chk} re=ERR fix=- re2=- vmin={vminOf bs} dis={d}"
     | .ok bs2 =>
       let re := if bs2 = bs then "same" else hexOf bs2
       match dis env bs2 with
-      | .error _ => s!"{chk} re={re} fix=diff re2=- dis={d}"
+      | .error _ => s!"{chk} re={re} fix=diff re2=- vmin={vminOf bs} dis={d}"
       | .ok (v3, stmts3) =>
         let fix := if stmts3 = stmts then "ok" else "diff"
         let re2 := match reasm v3 stmts3 with
           | .ok bs3 => if bs3 = bs2 then "same" else "diff"
           | .error _ => "ERR"
-        s!"{chk} re={re} fix={fix} re2={re2} dis={d}"
+        s!"{chk} re={re} fix={fix} re2={re2} vmin={vminOf bs} dis={d}"
 
 def handle (line : String) : String :=
   match fields line with
